@@ -162,7 +162,19 @@ func runWithFault(c Case, f faultSpec, res *Result) *Result {
 		v := violation("fault_at_"+phase+"_swamp_cannot_be_reopened", "%s", s.failed.Detail)
 		return &v
 	}
-	// the fault has cleared: later writes must be stored and recoverable
+	// the fault has cleared: later writes must be stored and recoverable. That holds for the writes the history
+	// itself goes on to make on the same, still open writer/chronicler: one that is reported as failed although
+	// no fault fired during it or after it was refused by a disk that is healthy again.
+	if len(fired) > 0 {
+		last := fired[len(fired)-1]
+		for i := range s.entries {
+			e := &s.entries[i]
+			if e.errLogged && !e.faultDuring && e.opAt > last {
+				v := violation("fault_at_"+phase+"_later_write_on_the_open_swamp_fails", "fault fired at op(s) %v (%s); write #%d of the history (key %s), issued at disk op %d on the same open swamp after the fault had cleared, was reported as failed: %s", fired, phase, i, shortKey(e.key), e.opAt, oneLine(s.logs.lastError(), 300))
+				return &v
+			}
+		}
+	}
 	sos.SetDisk(s.d)
 	logs := captureLogs()
 	post := map[string][]byte{}
